@@ -296,11 +296,18 @@ func (vt *Model) cup(pm [][]int) {
 		vt.cursor.row = 0
 		vt.cursor.col = 0
 	case 1:
-		vt.cursor.row = row(pm[0][0] - 1)
+		vt.cursor.row = row(clampParam(pm[0][0]) - 1)
 		vt.cursor.col = 0
 	case 2:
-		vt.cursor.row = row(pm[0][0] - 1)
-		vt.cursor.col = column(pm[1][0] - 1)
+		vt.cursor.row = row(clampParam(pm[0][0]) - 1)
+		vt.cursor.col = column(clampParam(pm[1][0]) - 1)
+	}
+	// An omitted or zero parameter means 1
+	if vt.cursor.row < 0 {
+		vt.cursor.row = 0
+	}
+	if vt.cursor.col < 0 {
+		vt.cursor.col = 0
 	}
 	if vt.cursor.col > column(vt.width()-1) {
 		vt.cursor.col = column(vt.width() - 1)
